@@ -77,6 +77,14 @@ func runRelay(c *harness.Ctx) {
 	}
 	A := mkFar("A", la.A, 0, 1)
 	B := mkFar("B", lb.A, 1, 0)
+	// a consumer that pauses between reads must not also be limited to tiny
+	// reads, or draining 120000 bytes takes longer than the run's horizon
+	if A.slowRead > 0 {
+		la.BA.MaxRead = 0
+	}
+	if B.slowRead > 0 {
+		lb.BA.MaxRead = 0
+	}
 	if A.endHow == "stay" && B.endHow == "stay" {
 		A.endHow = "eof"
 	}
